@@ -179,6 +179,14 @@ func TestC11(t *testing.T) {
 		if stats.Exclusion(exclTaggedTag) && strings.Contains(c.Text, "TaggedUnion") {
 			run.Excluded(exclTaggedTag) // the case has tagged unions and therefore no other struct type
 		}
+		for _, l := range c.Gen.Labels {
+			if l == "n7-touched" {
+				run.Excluded(exclFieldOfAny)
+			}
+			if l == "k51-touched" {
+				run.Excluded(exclMeet) // a join, scrutinee or operand was avoided because the checker's meet is unreliable there
+			}
+		}
 		v := check(run, rt, c)
 		labels := append([]string{}, v.labels...)
 		for _, l := range c.Gen.Labels {
